@@ -4,7 +4,7 @@ From AhrsLib Require Import Base Rot.
 From AhrsModel Require Import C03_driver.
 From AhrsModel Require Import C03_letin.
 From AhrsGen Require Import C03gen_R C03gen_L.
-From AhrsProps Require Import C03_core C03_steps C03_batch C03_partial_L C03_full_L C03_eq_a C03_eq_b.
+From AhrsProps Require Import C03_core C03_steps C03_batch C03_partial_L C03_full_L C03_est_L C03_triad_L C03_eq_a C03_eq_b C03_eq_c.
 Import ListNotations.
 Open Scope R_scope.
 
@@ -98,6 +98,82 @@ Proof.
   split; [exact (aqua_marg_partialL w x y z gx gy gz ax ay az mx my mz U)|]. split; [exact (fourati_partialL w x y z gx gy gz ax ay az mx my mz U)|exact (fqa_partialL ax ay az mx my mz)].
 Qed.
 Print Assumptions C03_unit_or_degenerate_large_partial.
+
+(* ---- single-frame estimators, e-compass, post-eigen-solver code, Complementary, EKF (round 2 of the deepening) ---- *)
+
+(* Tilt (acc; acc+mag): for ALL inputs the estimate is a unit quaternion or a rejection: the half-angle product has norm 1 identically *)
+Theorem C03_tilt_unit_or_raises : forall ax ay az mx my mz,
+  unit_or_raise (C03_tilt_acc_R ax ay az) /\ unit_or_raise (C03_tilt_am_R ax ay az mx my mz).
+Proof. intros. rewrite <- eq_tilt_acc, <- eq_tilt_am. split; [exact (tilt_acc_unit ax ay az)|exact (tilt_am_unit ax ay az mx my mz)]. Qed.
+Print Assumptions C03_tilt_unit_or_raises.
+
+(* TRIAD (rotmat): non-zero observations that are not parallel (explicit premise: |w1 x w2|^2 > 0) give a PROPER ROTATION MATRIX *)
+Theorem C03_triad_rotmat_SO3 : forall ax ay az mx my mz, 0 < ax*ax + ay*ay + az*az -> 0 < mx*mx + my*my + mz*mz ->
+  0 < (ay*mz - az*my)*(ay*mz - az*my) + (az*mx - ax*mz)*(az*mx - ax*mz) + (ax*my - ay*mx)*(ax*my - ay*mx) ->
+  exists l, C03_triad_R ax ay az mx my mz = Val l /\ SO3 l.
+Proof. intros. rewrite <- eq_triad. apply triad_rotmat_SO3; assumption. Qed.
+Print Assumptions C03_triad_rotmat_SO3.
+
+(* Complementary, two-sample batch through the constructor: both rows of .Q are unit quaternions (or the constructor rejects), ALL inputs *)
+Theorem C03_complementary_Q_unit_or_raises : forall gx gy gz ax ay az mx my mz hx hy hz ux uy uz nx ny nz,
+  unit_rows2_or_raise (C03_complementary_Q_R gx gy gz ax ay az mx my mz hx hy hz ux uy uz nx ny nz).
+Proof. intros. rewrite <- eq_complementary_Q. apply complementary_Q_unit. Qed.
+Print Assumptions C03_complementary_Q_unit_or_raises.
+
+(* Davenport after eigh: unit exactly under the eigen-solver's contract (unit columns), for every ordering of the eigenvalues *)
+Theorem C03_davenport_post_eigh_unit : forall ax ay az mx my mz l0 l1 l2 l3 v00 v01 v02 v03 v10 v11 v12 v13 v20 v21 v22 v23 v30 v31 v32 v33,
+  v00*v00 + v10*v10 + v20*v20 + v30*v30 = 1 -> v01*v01 + v11*v11 + v21*v21 + v31*v31 = 1 ->
+  v02*v02 + v12*v12 + v22*v22 + v32*v32 = 1 -> v03*v03 + v13*v13 + v23*v23 + v33*v33 = 1 ->
+  exists a b c d, C03_davenport_post_R ax ay az mx my mz l0 l1 l2 l3 v00 v01 v02 v03 v10 v11 v12 v13 v20 v21 v22 v23 v30 v31 v32 v33 = Val [a;b;c;d] /\ a*a + b*b + c*c + d*d = 1.
+Proof. intros. rewrite <- eq_davenport_post. apply davenport_post_unit; assumption. Qed.
+Print Assumptions C03_davenport_post_eigh_unit.
+
+(* PARTIAL (missing: non-zero-ness of the normalised vector): e-compass both frames, acc2q, FLAE after eigh — on every path a unit
+   quaternion, a rejection, or (only when that vector is exactly zero) the zero vector *)
+Theorem C03_estimators_unit_or_degenerate_partial : forall ax ay az mx my mz l0 l1 l2 l3 v00 v01 v02 v03 v10 v11 v12 v13 v20 v21 v22 v23 v30 v31 v32 v33,
+  unit_or_degenerate (C03_ecompass_ned_R ax ay az mx my mz) /\ unit_or_degenerate (C03_ecompass_enu_R ax ay az mx my mz) /\
+  unit_or_degenerate (C03_acc2q_R ax ay az) /\ unit_or_degenerate (C03_flae_eig_post_R ax ay az mx my mz l0 l1 l2 l3 v00 v01 v02 v03 v10 v11 v12 v13 v20 v21 v22 v23 v30 v31 v32 v33).
+Proof.
+  intros. rewrite <- eq_ecompass_ned, <- eq_ecompass_enu, <- eq_acc2q, <- eq_flae_eig_post.
+  split; [apply ecompass_ned_partialL|]. split; [apply ecompass_enu_partialL|]. split; [apply acc2q_partialL|apply flae_eig_post_partialL].
+Qed.
+Print Assumptions C03_estimators_unit_or_degenerate_partial.
+
+(* SAAM, FAMC on the guard (non-zero acc and mag): a value is ALWAYS returned (never None, never a rejection) and it is unit or the
+   zero vector (SAAM: the zero case is real, see C03_saam_level_refuted) *)
+Theorem C03_saam_famc_on_guard_partial : forall ax ay az mx my mz, 0 < ax*ax + ay*ay + az*az -> 0 < mx*mx + my*my + mz*mz ->
+  val_unit_or_zero (C03_saam_R ax ay az mx my mz) /\ val_unit_or_zero (C03_famc_R ax ay az mx my mz).
+Proof. intros ax ay az mx my mz A M. rewrite <- eq_saam, <- eq_famc. split; [exact (saam_guard ax ay az mx my mz A M)|exact (famc_guard ax ay az mx my mz A M)]. Qed.
+Print Assumptions C03_saam_famc_on_guard_partial.
+
+(* EKF.update with a magnetometer: for an exactly unit a-priori state and non-zero acc, mag, ANY covariance P and ANY 6x6 matrix in the
+   place of inv(S) (the only stubbed call): no rejection on any path, and the result is v/|v| — unit, or the zero vector exactly when the
+   corrected state v = q_t + K (z - h(q_t)) is zero.  (IMU variant with the traced 3x3 inverse: ekf_imu_guard, restated on _R in the thorough tier) *)
+Theorem C03_ekf_marg_on_guard_partial : forall w x y z gx gy gz ax ay az mx my mz p00 p01 p02 p03 p10 p11 p12 p13 p20 p21 p22 p23 p30 p31 p32 p33 s00 s01 s02 s03 s04 s05 s10 s11 s12 s13 s14 s15 s20 s21 s22 s23 s24 s25 s30 s31 s32 s33 s34 s35 s40 s41 s42 s43 s44 s45 s50 s51 s52 s53 s54 s55,
+  w*w + x*x + y*y + z*z = 1 -> 0 < ax*ax + ay*ay + az*az -> 0 < mx*mx + my*my + mz*mz ->
+  val_unit_or_zero (C03_ekf_marg_R w x y z gx gy gz ax ay az mx my mz p00 p01 p02 p03 p10 p11 p12 p13 p20 p21 p22 p23 p30 p31 p32 p33 s00 s01 s02 s03 s04 s05 s10 s11 s12 s13 s14 s15 s20 s21 s22 s23 s24 s25 s30 s31 s32 s33 s34 s35 s40 s41 s42 s43 s44 s45 s50 s51 s52 s53 s54 s55).
+Proof. intros. rewrite <- eq_ekf_marg. apply ekf_marg_guard; assumption. Qed.
+Print Assumptions C03_ekf_marg_on_guard_partial.
+
+Theorem C03_ekf_imu_on_guard_partial : forall w x y z gx gy gz ax ay az p00 p01 p02 p03 p10 p11 p12 p13 p20 p21 p22 p23 p30 p31 p32 p33,
+  w*w + x*x + y*y + z*z = 1 -> 0 < ax*ax + ay*ay + az*az ->
+  val_unit_or_zero (C03_ekf_imu_L w x y z gx gy gz ax ay az p00 p01 p02 p03 p10 p11 p12 p13 p20 p21 p22 p23 p30 p31 p32 p33).
+Proof. intros. apply ekf_imu_guard; assumption. Qed.
+Print Assumptions C03_ekf_imu_on_guard_partial.
+
+(* one attitude per sample for EVERY filter family: the drivers of all 19 classes are instances of `batch` (recursive filters: Madgwick,
+   Mahony, EKF, UKF, AQUA with gyr, Fourati, ROLEQ, FKF, Complementary, AngularRate) or `pointwise` (Tilt, SAAM, FAMC, FQA, QUEST,
+   Davenport, FLAE, OLEQ, TRIAD, AQUA without gyr); the row count of each class is compared with the model on every run *)
+Theorem C03_one_attitude_per_sample : forall (St Sample Out : Type) (step : St -> Sample -> St) (init : Sample -> St) (est : Sample -> Out)
+  (s0 : Sample) (h : list Sample),
+  length (batch St Sample step init (s0 :: h)) = S (length h) /\ length (pointwise Out Sample est (s0 :: h)) = S (length h) /\
+  (forall n, n < S (length h) -> exists q, nth_error (batch St Sample step init (s0 :: h)) n = Some q)%nat.
+Proof.
+  intros. split; [apply length_batch|]. split; [apply length_pointwise|].
+  intros n Hn. destruct (nth_error (batch St Sample step init (s0 :: h)) n) eqn:E; [eexists; reflexivity|].
+  apply nth_error_None in E. rewrite length_batch in E. simpl in E. exfalso. apply (PeanoNat.Nat.lt_irrefl n). eapply PeanoNat.Nat.lt_le_trans; eassumption.
+Qed.
+Print Assumptions C03_one_attitude_per_sample.
 
 (* the matrix FLAE hands to the eigen-solver is symmetric for every H (justifies eigh; real eigen-pairs) *)
 Theorem C03_flae_W_symmetric : forall h00 h01 h02 h10 h11 h12 h20 h21 h22,
